@@ -165,6 +165,9 @@ pub struct ReqT {
     /// virtual deadline of the request when a timeout is configured
     pub deadline_ms: Option<u64>,
     pub issue_instant: std::time::Instant,
+    /// at issue the pool certainly had nothing for this origin and no attempt to wait for: the
+    /// request certainly carries a connector of its own
+    pub has_connector_for_sure: bool,
 }
 
 /// C14(a) obligation: connection `conn` entered the pool while the requests `waiting` were
@@ -199,6 +202,8 @@ pub struct World {
     pub internal: Option<String>,
     /// virtual clock (sum of Advance operations), ms
     pub now_ms: u64,
+    /// step of the most recent completed background step
+    pub last_bg_step: usize,
 }
 
 pub type W = Arc<Mutex<World>>;
@@ -1024,6 +1029,24 @@ impl Sim {
                 w.classes.insert("issue-after-pooled-close");
             }
             let deadline_ms = self.cfg.req_timeout_ms.filter(|_| !probe).map(|d| w.now_ms + d);
+            let has_connector_for_sure = {
+                let possibly_idle = w.conns.iter().any(|c| {
+                    c.okey == okey
+                        && c.handles >= 1
+                        && (c.shareable || (c.holders.is_empty() && c.entry_step.map(|e| c.last_handoff_step.map(|h| e > h).unwrap_or(true)).unwrap_or(false)))
+                });
+                // a connection handed back through a cancelled checkout or sitting in a waiter's
+                // channel is not tracked: require that no other request of the origin is alive
+                let others_alive = w.reqs.iter().any(|r| r.okey == okey && matches!(r.status, RStatus::Unpolled | RStatus::Polling));
+                let dial_in_flight = w.dials.iter().any(|d| d.okey == okey && d.in_flight());
+                let limbo = w.conns.iter().any(|c| c.okey == okey && c.handles >= 1 && !c.shareable && c.holders.is_empty());
+                // a request that ended since the last background step may have left a checkout
+                // whose continuation has not started dialing yet (it still owns the in-flight mark)
+                let pending_continuation = w.reqs.iter().any(|r| {
+                    r.okey == okey && (r.end_step.map(|e| e >= w.last_bg_step).unwrap_or(false) || r.handoff.map(|(_, h)| h >= w.last_bg_step).unwrap_or(false))
+                });
+                !possibly_idle && !others_alive && !dial_in_flight && !limbo && !pending_continuation
+            };
             w.reqs.push(ReqT {
                 okey: okey.clone(),
                 h2,
@@ -1042,6 +1065,7 @@ impl Sim {
                 timed: self.cfg.req_timeout_ms.is_some(),
                 deadline_ms,
                 issue_instant: std::time::Instant::now(),
+                has_connector_for_sure,
             });
             w.log(|| format!("issue req#{id} {} h2={h2} must_not_dial={must_not_dial:?}", ORIGINS[origin % ORIGINS.len()]));
         }
@@ -1389,6 +1413,7 @@ impl Sim {
         }
         // ---- C15: idle bound, evaluated when the pool is quiescent w.r.t. background work
         check_idle_bound(&mut w);
+        w.last_bg_step = w.step;
     }
 
     /// Apply one generated operation. Returns false when it was a no-op.
@@ -1849,6 +1874,33 @@ fn check_unfaulted_failures(w: &mut World) {
 /// End-of-history checks for C14 (b)/(c).
 fn check_abandoned_dials(w: &mut World) {
     let cont = w.cfg.cont;
+    // (b') / (c'): attempts that had not started when their request went away. A request that
+    // certainly carried a connector and ended (cancelled, or served by a released connection) without
+    // ever starting its dial: with continue_after_preemption the attempt runs in the background, so at
+    // least as many background-started dials of the origin exist; without it nothing is ever dialed in
+    // the background.
+    if w.cfg.req_timeout_ms.is_none() {
+        let keys: BTreeSet<String> = w.reqs.iter().map(|r| r.okey.clone()).collect();
+        for k in keys {
+            let owed = w
+                .reqs
+                .iter()
+                .filter(|r| r.okey == k && !r.probe && r.has_connector_for_sure && r.dials.is_empty() && matches!(r.status, RStatus::Cancelled | RStatus::Done) && !matches!(r.result, Some(Err(_))))
+                .count();
+            let bg = w.dials.iter().filter(|d| d.okey == k && d.starter == Actor::Bg).count();
+            if owed > 0 {
+                w.classes.insert("attempt-abandoned-before-it-started");
+            }
+            if cont && bg < owed {
+                let msg = format!("continue_after_preemption=true: {owed} request(s) for {k} were abandoned (cancelled or served by a released connection) before their own connection attempt had started, but only {bg} attempt(s) were continued in the background");
+                w.violate("C14/b-unstarted-attempt-not-continued", msg);
+            }
+            if !cont && bg > 0 {
+                let msg = format!("continue_after_preemption=false: {bg} connection attempt(s) for {k} were started in the background");
+                w.violate("C14/c-background-dial-although-disabled", msg);
+            }
+        }
+    }
     for d in 0..w.dials.len() {
         let Some(ab) = w.dials[d].abandoned_step else { continue };
         let dd = &w.dials[d];
